@@ -117,6 +117,8 @@ def conclude(mod, prop, args, seed, case_list, results, inconclusive, t0):
                         s.append(x)
         if r.get("fingerprint") is not None:
             agg["fingerprints"].add(r["fingerprint"])
+        for f in r.get("fingerprints", []) or []:
+            agg["fingerprints"].add(f)
         if r.get("sample") is not None and len(agg["samples"]) < 5:
             agg["samples"].append(r["sample"])
         if r.get("harness_error"):
